@@ -121,6 +121,29 @@ def runLine (input : Json) : Option LineObs := do
                      exc := match lo.exc with | some e => e.name | none => "" }
   | .error _ => none     -- `handleLine` never raises
 
+/-- C03 histories: a whole manager lifetime — the lines of `lines` handled one after the other on one
+    manager and one device until a shutdown (`Ledger.serve`).  Expected of the implementation: as
+    long as the device keeps to its protocol, every line is answered with a reply that carries an
+    integer errorcode and the manager is still running afterwards. -/
+def history (input implOut : Json) : Option (Json × Bool) := do
+  let w ← worldOfJson input
+  let lines ← (← input.get? "lines").asArr?
+  let parsed ← lines.mapM fun l => parsedOfJson l
+  let r := serve (modeOfJson input) (hashesOfJson input) parsed w
+  let los ← (match r.val with | .ok los => some los | .error _ => none)
+  let model : Json := .obj [
+    ("lines", .arr (los.map fun lo => .obj [("reply", lo.reply), ("shutdown", .bool lo.shutdown),
+      ("exc", .str (match lo.exc with | some e => e.name | none => ""))])),
+    ("events", evsToJson r.evs), ("comm_issue", .bool r.w.commIssue)]
+  let ievs ← evsOfJson? (← implOut.get? "events")
+  let ilines ← (← implOut.get? "lines").asArr?
+  let conforms := Spec.deviceConforms w.script ievs
+  let ok := !conforms ||
+    (ilines.length == lines.length &&
+     ilines.all fun l => (match l.get? "reply" with | some rj => Spec.isReply rj | none => false) &&
+       (l.get? "shutdown").bind Json.asBool? == some false)
+  pure (model, ok)
+
 /-- generic `line` op; `spec` is the property oracle evaluated on the implementation's output -/
 def line (spec : Json → LineObs → Bool) (input implOut : Json) : Option (Json × Bool) := do
   let m ← runLine input
@@ -505,6 +528,7 @@ def run (op : String) (input implOut : Json) : Option (Json × Bool) :=
   | "conc" => conc input implOut
   | "e2e" => e2e input implOut
   | "pem" => pem input implOut
+  | "history" => history input implOut
   | "line.C10" => line (fun i o => match worldOfJson i with
       | some w =>
         -- a request that repairs the link may run the PIN protocol: after any change attempt the
